@@ -349,6 +349,11 @@ func StatementProcessor(gs *gripql.GraphStatement, db gdbi.GraphInterface, ps *p
 			if _, ok := aggs[a.Name]; ok {
 				return nil, fmt.Errorf("duplicate aggregation name '%s' found; all aggregations must have a unique name", a.Name)
 			}
+			// an aggregation without a kind has no worker: its channel would fill up and
+			// block the whole step
+			if a.GetAggregation() == nil {
+				return nil, fmt.Errorf("aggregation '%s' has no type (term, histogram, percentile, field, type or count)", a.Name)
+			}
 			aggs[a.Name] = nil
 		}
 		ps.LastType = gdbi.AggregationData
